@@ -1095,6 +1095,8 @@ class CompartmentalModel:
             whitelist: A list of the derived output names to calculate, ignoring all others.
 
         """
+        # A runner cached by an earlier run computes the outputs requested at that time
+        self._runner = None
         self._derived_outputs_whitelist = whitelist
 
     def set_baseline(self, baseline):
